@@ -1,9 +1,5 @@
 impl<BE: DecryptWriteBackend> Indexer<BE> {
-    // save()/reset(): writing the collected index file and starting a new one; neither touches `indexed`
+    // save(): writes the collected index file (takes &self: cannot touch `indexed`); reset() is a unit of its own
     #[verifier::external_body]
     pub fn save(&self) -> (r: RusticResult<()>) { unimplemented!() }
-    #[verifier::external_body]
-    pub fn reset(&mut self)
-        ensures final(self).indexed == old(self).indexed,
-    { unimplemented!() }
 }
